@@ -16,6 +16,7 @@ from typing import (
     cast,
 )
 
+import numpy
 from interface_meta import InterfaceMeta, inherit_docs
 
 from formulaic.errors import (
@@ -860,6 +861,24 @@ class FormulaMaterializer(metaclass=FormulaMaterializerMeta):
         return the current factor values.
         """
         return as_columns(factor.values)
+
+    def _as_numerical_column(self, values: Any) -> Any:
+        """
+        Numerical factors need not evaluate to a column of the data: a scalar
+        (e.g. `x.max()`) stands for a column that holds it in every row, and a
+        list holds one number per row. numpy does not look inside the wrapper
+        of evaluated factor values for either, so a scalar is broadcast over
+        the rows of the data and a wrapped list is converted to an array here;
+        every output type can then be assembled from them. Anything else is
+        returned as is.
+        """
+        if isinstance(values, FactorValues):
+            unwrapped = values.__wrapped__
+            if numpy.isscalar(unwrapped):
+                return numpy.full(self.nrows, unwrapped)
+            if isinstance(unwrapped, list):
+                return numpy.array(unwrapped)
+        return values
 
     def _flatten_encoded_evaled_factor(
         self, name: str, values: FactorValues[dict]
